@@ -500,16 +500,20 @@ def gen_core_case(rng, hard=False, joins=True, nquads=None, nrows=None):
             t['poms'].append(p)
         doc.append(t)
     if joins and ntm >= 2 and rng.random() < 0.5:
-        # a referencing object map from TM0 to another triples map
-        child, parent = doc[0], doc[rng.randrange(1, ntm)]
+        # referencing object maps from TM0 to other triples maps; several may share predicate and parent and differ
+        # only in their join conditions
+        child = doc[0]
         csrc = next(s for s in sources if s['key'] == child['src'])
-        psrc = next(s for s in sources if s['key'] == parent['src'])
-        conds = [[rng.choice(csrc['cols']), rng.choice(psrc['cols'])] for _ in range(rng.choice([1, 1, 2]))]
-        if csrc is psrc and rng.random() < 0.4:
-            conds = [[c, c] for c, _ in conds]
-        child['poms'].append({'preds': [gen_termmap(rng, csrc['cols'], 'predicate')],
-                              'objs': [{'m': {'k': 'parent', 'v': parent['id'], 'ck': 'iri', 'tt': ''}, 'lang': None, 'dt': None, 'joins': conds}],
-                              'graphs': []})
+        shared_pred = gen_termmap(rng, csrc['cols'], 'predicate')
+        for _ in range(rng.choice([1, 1, 2, 3])):
+            parent = doc[rng.randrange(1, ntm)]
+            psrc = next(s for s in sources if s['key'] == parent['src'])
+            conds = [[rng.choice(csrc['cols']), rng.choice(psrc['cols'])] for _ in range(rng.choice([1, 1, 2]))]
+            if csrc is psrc and rng.random() < 0.4:
+                conds = [[c, c] for c, _ in conds]
+            child['poms'].append({'preds': [shared_pred if rng.random() < 0.6 else gen_termmap(rng, csrc['cols'], 'predicate')],
+                                  'objs': [{'m': {'k': 'parent', 'v': parent['id'], 'ck': 'iri', 'tt': ''}, 'lang': None, 'dt': None, 'joins': conds}],
+                                  'graphs': []})
     cfg = {'nquads': rng.random() < 0.6 if nquads is None else nquads, 'mode': rng.choice(['NO', 'PARTIAL-AGGREGATIONS', 'MAXIMAL'])}
     if hard and rng.random() < 0.3:
         cfg['na'] = rng.choice([['', 'nan'], [''], ['', 'NULL', 'None'], ['x', 'a']])
